@@ -28,6 +28,11 @@ class TreeGen:
         self.extra = []       # variables defined in all branches of some if
         self.kinds = set()
         self.lists = rnd.random() < 0.5     # tracked list / nested-list variables updated in place
+        # plain Python lists S, T of secrets that branches assign to the tracked variable l / select between: natively such a
+        # list is what it was when the branch is not taken.  (No element writes through l then: the API has no aliasing.)
+        self.shared = self.lists and rnd.random() < 0.5
+        if self.shared:
+            self.ELEMS = [e for e in TreeGen.ELEMS if not e.startswith("l[")]
 
     ELEMS = ["l[0]", "l[1]", "l[2]", "m[0][0]", "m[0][1]", "m[1][0]", "m[1][1]"]
 
@@ -66,6 +71,11 @@ class TreeGen:
         r = self.rnd
         x = r.random()
         if depth >= 3 or x < 0.45:
+            if self.shared and r.random() < 0.3:
+                self.kinds.add("shared-list")
+                if r.random() < 0.5:
+                    return ("assign_raw", "l", r.choice(["S", "T"]))
+                return ("select_list", "l", self.cond(vars_), r.choice([("S", "T"), ("T", "S"), ("S", "{l}"), ("{l}", "T")]))
             if self.lists and r.random() < 0.35:
                 self.kinds.add("list-element-write")
                 return ("assign", r.choice(self.ELEMS), self.expr(vars_))
@@ -138,7 +148,7 @@ def render(tree, api):
 
     def ex(e):
         out = e
-        for v in ["a", "b", "c"] + ["d%d" % i for i in range(10)] + TreeGen.ELEMS:
+        for v in ["a", "b", "c", "l", "m"] + ["d%d" % i for i in range(10)] + TreeGen.ELEMS:
             out = out.replace("{%s}" % v, ("_.%s" % v) if api else v)
         return out
 
@@ -155,6 +165,14 @@ def render(tree, api):
                 if not api:
                     rhs = "chk(%s)" % rhs
                 emit(ind, "%s = %s" % (("_.%s" % st[1]) if api else st[1], rhs))
+            elif k == "assign_raw":
+                emit(ind, "%s = %s" % (("_.%s" % st[1]) if api else st[1], st[2]))
+            elif k == "select_list":
+                _, tgt, c, (tv, fv) = st
+                if api:
+                    emit(ind, "_.%s = if_then_else(%s, %s, %s)" % (tgt, ex(c), ex(tv), ex(fv)))
+                else:
+                    emit(ind, "%s = list(%s) if (%s) else list(%s)" % (tgt, ex(tv), ex(c), ex(fv)))
             elif k == "if":
                 _, c, then, elifs, els, newvar = st
                 if api:
@@ -270,6 +288,9 @@ def worker(job):
         if tg.lists:
             head_api += ["_.l = [_.a + 0, _.b + 1, ConstVal(3)]", "_.m = [[_.a + 1, _.b + 0], [_.c + 0, ConstVal(2)]]"]
             head_twin += ["l = [a + 0, b + 1, 3]", "m = [[a + 1, b + 0], [c + 0, 2]]"]
+        if tg.shared:
+            head_api += ["S = [_.a + 2, _.b + 3, ConstVal(5)]", "T = [_.c + 1, ConstVal(7), _.a + 0]"]
+            head_twin += ["S = [a + 2, b + 3, 5]", "T = [c + 1, 7, a + 0]"]
         implicit = rnd.random() < 0.25
         if implicit:
             # context found implicitly: a helper function whose own BranchingValues is called `__`, no ctx= arguments, and a
@@ -278,9 +299,10 @@ def worker(job):
             body = [ln.replace(", ctx=_", "").replace("(ctx=_)", "()").replace("_.", "__.").replace("_ = BranchingValues()", "__ = BranchingValues()")
                     for ln in head_api + render(tree, True)]
             api_src = "\n".join(["_ = BranchingValues()", "_.a = PrivVal(100)", "_.b = PrivVal(200)", "_.c = PrivVal(300)", "def _prog(I):"] +
-                                ["    " + ln for ln in body] + ["    return __", "RES = _prog(I)", "DECOY = _"]) + "\n"
+                                ["    " + ln for ln in body] + (["    global SHARED", "    SHARED = [S, T]"] if tg.shared else []) +
+                                ["    return __", "RES = _prog(I)", "DECOY = _"]) + "\n"
         else:
-            api_src = "\n".join(head_api + render(tree, True) + ["RES = _"]) + "\n"
+            api_src = "\n".join(head_api + render(tree, True) + ["RES = _"] + (["SHARED = [S, T]"] if tg.shared else [])) + "\n"
         twin_src = "\n".join(head_twin + render(tree, False)) + "\n"
         prog = G.Prog(api_src, [], 32, 0)
         try:
@@ -293,7 +315,10 @@ def worker(job):
         kinds = "+".join(sorted(tg.kinds)) or "straight"
         completed = []
         vectors = [[rnd.randint(0, 6), rnd.randint(0, 6), rnd.randint(0, 6)] for _ in range(5)] + [[0, 0, 0], [rnd.randint(0, 3)] * 3]
-        for inputs in vectors:
+        user_ignore = [False] * len(vectors)
+        vectors = vectors + [list(v) for v in vectors[:2]]
+        user_ignore += [True, True]          # the same program with the user's own ignore_errors(True) in effect (as examples/sudoku.py does)
+        for inputs, uign in zip(vectors, user_ignore):
             tns = {"I": list(inputs), "TwinMustRaise": TwinMustRaise, "NEG": [], "chk": chk}
             texc = None
             try:
@@ -303,8 +328,12 @@ def worker(job):
             except TwinOutOfDomain:
                 R.count("twin_out_of_domain_not_judged")
                 continue
+            if uign and (texc is not None or tns["NEG"]):
+                continue       # with checks off the library does not raise where the twin must
             ncond0 = recorder.calls["add_constraint"]
-            out = G.run_api(prog, inputs, N, modulus=p, chunks=chunks)
+            out = G.run_api(prog, inputs, N, modulus=p, chunks=chunks, ignore=uign)
+            if uign:
+                R.count("runs_with_user_ignore_errors")
             R.count("runs")
             key = (api_src, tuple(inputs))
             det = dict(src=api_src, twin=twin_src, inputs=inputs, p=p)
@@ -351,6 +380,11 @@ def worker(job):
             for name in ("a", "b", "c") + tuple(tg.extra):
                 if name in tns and name not in ctx.vals and name in ("a", "b", "c"):
                     bad = (name, "missing after the API program")
+            if tg.shared and bad is None:
+                ncmp += 2
+                R.count("shared_lists_compared", 2)
+                if plainval(out.ns["SHARED"]) != [tns["S"], tns["T"]]:
+                    bad = ("S / T", "plain lists that branches assigned / selected from were modified: API %r, native %r" % (plainval(out.ns["SHARED"]), [tns["S"], tns["T"]]))
             R.count("variables_compared", ncmp)
             R.case(cell=["%s|%s" % (kinds, path)], key=key, nontrivial=ncmp > 0 and nsecret > 0)
             R.sample(dict(src=api_src, inputs=inputs, final={k: tns[k] for k in ("a", "b", "c")}), cap=4)
